@@ -372,6 +372,10 @@ func (d *Device) OtherCanon(managed map[string]bool) []string {
 				for _, s := range b.Sub {
 					w := strings.Fields(s)
 					if len(w) == 3 && w[0] == "crypto" && w[1] == "map" && (managed == nil || managed[n]) {
+						if d.isGDOIMap(w[2]) {
+							// Crypto maps of type gdoi are not Netspoc's.
+							continue
+						}
 						res = append(res, "interface "+n+" crypto map "+d.iosCryptoCanon(w[2]))
 					}
 				}
@@ -478,4 +482,18 @@ func (d *Device) iosCryptoCanon(name string) string {
 	}
 	sort.Strings(entries)
 	return "{" + strings.Join(entries, " || ") + "}"
+}
+
+// isGDOIMap: every entry of the IOS crypto map is of type gdoi (GETVPN).
+func (d *Device) isGDOIMap(name string) bool {
+	n := 0
+	for _, b := range d.Blocks {
+		if strings.HasPrefix(b.Header, "crypto map "+name+" ") {
+			if !strings.HasSuffix(b.Header, " gdoi") {
+				return false
+			}
+			n++
+		}
+	}
+	return n > 0
 }
